@@ -50,9 +50,17 @@ def scatter_files(files, sb, mode, single_name=NAME, tag=""):
     os.makedirs(s1, exist_ok=True)
     placed = {}
     dirs = [s1]
+    seen = {}
     for i, (rel, data) in enumerate(files):
         base = rel[-1] if rel else single_name
-        if mode == "orig":
+        if mode == "dedup":
+            # one copy serves every entry with this name and these bytes
+            if (base, data) in seen:
+                placed[i] = seen[(base, data)]
+                continue
+            p = os.path.join(s1, f"k{i}", base)
+            seen[(base, data)] = p
+        elif mode == "orig":
             p = os.path.join(s1, single_name, *rel) if rel else \
                 os.path.join(s1, single_name)
         elif mode == "flat":
@@ -71,6 +79,15 @@ def scatter_files(files, sb, mode, single_name=NAME, tag=""):
     return dirs, placed
 
 
+def _search_root(p):
+    """The directory that holds the search directories of a placed file."""
+    parts = p.split(os.sep)
+    for k in range(len(parts) - 1, 0, -1):
+        if parts[k].startswith("search"):
+            return os.sep.join(parts[:k])
+    raise ValueError(p)
+
+
 def add_decoys(files, placed, kind, seed):
     """decoy: for every non-empty file a same-name same-size file with entirely
     different bytes, one in a directory that sorts before and one after the
@@ -79,12 +96,25 @@ def add_decoys(files, placed, kind, seed):
     for i, (rel, data) in enumerate(files):
         p = placed[i]
         d, base = os.path.dirname(p), os.path.basename(p)
-        if kind == "decoy" and data:
+        if kind in ("decoy", "decoy-lo", "decoy-hi") and data:
+            # -lo / -hi: on one side only, so that enumeration order and
+            # path order of original and decoy can disagree
             fake = bytes((b ^ 0x5A) or 0x11 for b in data)
-            for sub in ("!first", "~last"):
+            for sub in {"decoy": ("!first", "~last"), "decoy-lo": ("!first",),
+                        "decoy-hi": ("~last",)}[kind]:
                 q = os.path.join(d, sub, base)
                 world.write_file(q, fake)
                 out.append(q)
+        elif kind == "decoy-dir0" and data:
+            # in a search directory of its own that is listed last but whose
+            # path sorts first
+            fake = bytes((b ^ 0x5A) or 0x11 for b in data)
+            s0 = os.path.join(_search_root(p), "search0")
+            q = os.path.join(s0, base)
+            if os.path.exists(q):
+                q = os.path.join(s0, f"n{i}", base)
+            world.write_file(q, fake)
+            out.append(q)
         elif kind == "partial" and len(data) >= 2:
             # same name and size, identical except for the last byte: verifies
             # in every piece but the file's last one
@@ -213,7 +243,7 @@ class RebuildCheck:
             return gs
         if self.id == "C14":
             for fam in FAMILIES:
-                for sh in ("S1", "D2n", "D3s", "D1n"):
+                for sh in ("S1", "D2n", "D3s", "D1n", "D2rr", "D1rr"):
                     if sh == "D1n" and "v2" in fam.lower():
                         continue
                     gs.append({"kind": "prestate", "family": fam, "shape": sh,
@@ -238,7 +268,8 @@ class RebuildCheck:
                        "shape": "S1", "alpha": [514, 515, 1026, 2050],
                        "first": None, "seed": seed, "tier": tier})
         for P in ([32768] if quick else [16384, 32768]):
-            for sh in ["S1", "D1", "D1n", "D2n", "D3s", "D3x", "D3n", "D3e"] + (
+            for sh in ["S1", "D1", "D1n", "D2n", "D3s", "D3x", "D3n", "D3e",
+                       "D2rr", "D1rr"] + (
                     [] if quick else ["D3", "D4"]):
                 n = world.nfiles(sh)
                 alpha = [0, 1, P - 1, P, P + 1, 2 * P, 2 * P + 1] if n < 3 \
@@ -249,6 +280,15 @@ class RebuildCheck:
                                "P": P, "shape": sh, "alpha": alpha,
                                "first": g["first"], "seed": seed,
                                "tier": tier})
+        # the same file (name, length, bytes) listed twice in one torrent,
+        # one copy available
+        gs.append({"kind": "dup", "scale": "S", "B": 2, "P": 4,
+                   "sizes": [[s, s, t] for s in range(1, 10) for t in (0, 3)],
+                   "seed": seed, "tier": tier})
+        P = 32768
+        gs.append({"kind": "dup", "scale": "R", "B": REAL_B, "P": P,
+                   "sizes": [[s, s, t] for s in (1, P, P + 1, 2 * P + 1)
+                             for t in (0, 5)], "seed": seed, "tier": tier})
         gs.append({"kind": "batch", "seed": seed, "tier": tier})
         return gs
 
@@ -359,10 +399,14 @@ class RebuildCheck:
         mpaths = []
         specs = [("t1", "own-v1", [(("a",), P + 1), (("d", "b"), 7)]),
                  ("t2", "own-v2", [(("a",), 2 * P), (("c",), 0)]),
-                 ("t3", "own-hybrid", [((), P + 9)])]
+                 ("t3", "own-hybrid", [((), P + 9)]),
+                 # shares the file `a` (name, length, bytes) with t2; one copy
+                 ("t4", "own-hybrid", [(("a",), 2 * P, 10), (("e",), 5)])]
         for k, (name, fam, spec) in enumerate(specs):
-            files = [(rel, world.content(seed, 10 * k + i, n))
-                     for i, (rel, n) in enumerate(spec)]
+            shared = [len(x) > 2 for x in spec]
+            files = [(x[0], world.content(seed, x[2] if len(x) > 2
+                                          else 10 * k + i, x[1]))
+                     for i, x in enumerate(spec)]
             srcp = os.path.join(sb, "src" + name)
             os.mkdir(srcp)
             root = world.materialize(files, srcp, name=name)
@@ -371,6 +415,8 @@ class RebuildCheck:
             trees.append((name, dict(files), bencode.decode(raw, strict=False)))
             mpaths.append(mp)
             for i, (rel, data) in enumerate(files):
+                if shared[i]:
+                    continue
                 world.write_file(os.path.join(
                     search, f"{name}_{i}", rel[-1] if rel else name), data)
         perms = list(itertools.permutations(sorted(os.listdir(mdir))))
@@ -382,10 +428,11 @@ class RebuildCheck:
         shutil.copy(mpaths[0], mdir_a)
         shutil.copy(mpaths[1], mdir_b)
         shutil.copy(mpaths[2], mdir_b)
+        shutil.copy(mpaths[3], mdir_a)
         variants = [("list", mpaths, None)] + [("dir", [mdir], p)
                                                for p in perms]
-        variants += [("mixed", [mpaths[0], mdir_b], None),
-                     ("mixed", [mdir_b, mpaths[0]], None),
+        variants += [("mixed", [mpaths[0], mdir_b, mpaths[3]], None),
+                     ("mixed", [mpaths[3], mdir_b, mpaths[0]], None),
                      ("mixed", [mdir_a, mdir_b], None),
                      ("mixed", [mdir_b, mdir_a], None),
                      ("mixed", [mpaths[1], mdir_a, mpaths[2]], None)]
@@ -449,7 +496,8 @@ class RebuildCheck:
         P = 32768
         quick = g["tier"] == "quick"
         n = world.nfiles(sh)
-        sizesets = {1: [[P + 5], [7]] if sh != "D1n" else [[P + 5]],
+        sizesets = {1: [[P + 5], [7]] if sh not in ("D1n", "D1rr")
+                    else [[P + 5]],
                     2: [[P + 5, 9], [2 * P, P]],
                     3: [[P + 5, 9, P], [5, 0, 2 * P]]}[n]
         pre_alpha = ["absent", "correct", "wrong-same-size", "shorter",
@@ -463,9 +511,14 @@ class RebuildCheck:
             for pre in itertools.product(pre_alpha, repeat=n):
                 for dk, order in (("none", "sorted"), ("decoy", "sorted"),
                                   ("decoy", "reversed"), ("longer", "sorted"),
-                                  ("longer", "reversed")):
-                    if dk == "longer" and any(p != "absent" for p in pre) \
-                            and quick:
+                                  ("longer", "reversed"),
+                                  ("decoy-lo", "sorted"),
+                                  ("decoy-lo", "reversed"),
+                                  ("decoy-hi", "sorted"),
+                                  ("decoy-hi", "reversed"),
+                                  ("decoy-dir0", "sorted")):
+                    if dk in ("longer", "decoy-lo", "decoy-hi", "decoy-dir0") \
+                            and any(p != "absent" for p in pre) and quick:
                         continue
                     found += self.c14_history(w, files, tree, fam, pre, dk,
                                               seed, res, quick, order)
@@ -500,6 +553,8 @@ class RebuildCheck:
         _d2, _p2 = scatter_files(files2, sb, "flat", single_name="other",
                                  tag="b")
         dirs = dirs + _d2
+        if dk == "decoy-dir0" and decoys:
+            dirs = dirs + [os.path.join(sb, "search0")]
         dest = os.path.join(sb, "dest")
         os.mkdir(dest)
         want = expected_tree(meta)
@@ -523,7 +578,7 @@ class RebuildCheck:
             world.write_file(p, body)
         world.write_file(os.path.join(dest, "unrelated.bin"), b"mine")
         decoy_bytes = set()
-        for q in (decoys if dk == "decoy" else []):
+        for q in (decoys if dk.startswith("decoy") else []):
             with open(q, "rb") as f:
                 decoy_bytes.add(f.read())
         hist = [("m1", "lib"), ("m1", "lib"), ("m2", "lib")] if quick else \
@@ -818,16 +873,23 @@ class RebuildCheck:
                 res.violation(sig, case, d)
             return res
         confirmed = {}
-        for sizes in e1.iter_sizes(g["shape"], g["alpha"], g["first"]):
+        if g["kind"] == "dup":
+            allsizes = g["sizes"]
+        else:
+            allsizes = e1.iter_sizes(g["shape"], g["alpha"], g["first"])
+        for sizes in allsizes:
             if sum(sizes) == 0:
                 continue
-            if g["shape"] == "D1" and False:
-                continue
-            w = {"scale": g["scale"], "B": g["B"], "P": g["P"],
-                 "shape": g["shape"], "sizes": sizes}
             quick = g["tier"] == "quick"
-            scat = SCATTER if not quick or world.nfiles(g["shape"]) <= 2 \
-                else ["orig", "deep"]
+            if g["kind"] == "dup":
+                w = {"scale": g["scale"], "B": g["B"], "P": g["P"],
+                     "shape": "D3x", "sizes": sizes, "cids": [0, 0, 2]}
+                scat = ["dedup", "orig"]
+            else:
+                w = {"scale": g["scale"], "B": g["B"], "P": g["P"],
+                     "shape": g["shape"], "sizes": sizes}
+                scat = SCATTER if not quick or world.nfiles(g["shape"]) <= 2 \
+                    else ["orig", "deep"]
             found = self.c13_world(w, seed, res, scatters=scat)
             res.sample({"world": w})
             if g["scale"] == "R":
